@@ -20,6 +20,14 @@ CHECKS = {
    text="on every successful compilation in the domain (golden corpus minus the committed list of items whose expected output is deliberately not plain CSS, plus generated clean programs and hostile string literals; x {expanded, compressed} x {allows_charset}): explicit UTF-8 validation of the returned bytes, independent CSS reader (balanced blocks, terminated strings/comments/urls), scan for Sass-only syntax, @charset/BOM rule, and re-compilation of the output as plain CSS and as SCSS whose canonical block list must equal the first one; thorough adds the serializer workload under Miri",
    note="fixed point compared on canonical (context, selector, declarations) lists, ignoring declaration-less rules; outputs containing `#{` inside strings are not re-fed; nested @media re-merging is left to C17; domain exclusions are listed in vp/c05_domain_exclusions.json with the failing check",
    technique="runtime monitoring: invariant checks on recorded outputs (independent CSS reader) + metamorphic fixed-point re-compilation; Miri for the unsafe from_utf8_unchecked path"),
+ "C08": dict(engine="vw+vp",
+   text="reference-model monitor: an independent table-free unit model (dimension classes with exact ratios) predicts value, unit and error status of `1u op xv` for ALL 36x36 ordered pairs of the 34 known units + an unknown unit + unitless x 10 operations x 3 magnitudes (exhaustively enumerated sub-space), plus sampled round trips, transitivity, cancellation and compound-unit cases; observations are exact f64 bits and unit lists from the probe; emission of compound units must fail in both styles",
+   note="numeric agreement within relative 1e-11; for cancellations the result is compared as a quantity (any convertible unit accepted); convertibility of *compound* units is not demanded",
+   technique="runtime monitoring: reference-model oracle over probe-observed values, exhaustive over the unit-pair table"),
+ "C17": dict(engine="vw+vp",
+   text="truth-table oracle: for every nested pair outer{inner{rule}} the set of media environments (type x truth values of 3 opaque features) satisfying the emitted structure (merged list, nested lists, or nothing) must equal sat(outer) & sat(inner); ALL ordered pairs of single queries over 4 types x 3 modifiers x 2^3 feature subsets are enumerated (minus the exclusions in the quantifier), query lists, triples, interpolated and upper-case spellings are sampled",
+   note="features are opaque booleans; `only` is a no-op; query text outside the input fragment counts as altered text",
+   technique="runtime monitoring: exhaustive reference-model (truth table) oracle over compiled outputs read by an independent CSS reader"),
 }
 
 ALL = ["C%02d" % i for i in range(1, 21)]
